@@ -29,4 +29,31 @@ PROPS = {
         "assumptions": ["u64 wrap-around excluded (extents and products below 2^64)",
                         "rayon's bridge is exercised only through Producer::split_at/into_iter (the public plumbing API)"],
     },
+    "C10": {
+        "claimed": False,
+        "lean_props": ["ZarrsModel.Props.C10"],
+        "harness": "c10",
+        "rule": "exhaustive 1-D enumeration: every dimension kind (fixed 1..3; every composition of totals 0..6 as a varying size list) x array "
+                "extents 0..7 x every element 0..a+1, chunk index 0..count+1, in-bounds region and box of chunks, each queried on the grid as built "
+                "and on the grid re-created from its serialised metadata, through both RegularChunkGrid and RectangularChunkGrid; plus random "
+                "2-D/3-D mixed grids (dense when <=16 elements), rank mismatches and extents up to 2^40; non-trivial = distinct request with a "
+                "value outcome that is not all-none and whose grid has a varying dimension or a ragged regular edge",
+        "nontrivial": lambda l: " -> val" in l and "=none" not in l.split(" -> ")[1] and " none" not in l.split(" -> ")[1],
+        "exhaustive": True,
+        "exhaustive_scope": "all 1-D grids with fixed size<=3 or varying sizes summing to <=6, array extents 0..7, all elements/chunks/regions",
+        "trusted_base": COMMON_TB,
+        "assumptions": ["u64 overflow of chunk_index*chunk_size excluded", "serde_json round trip of the configuration is exercised (via=meta), not modelled"],
+    },
+    "C11": {
+        "claimed": False,
+        "lean_props": ["ZarrsModel.Props.C11"],
+        "harness": "c11",
+        "rule": "Array::chunk_key on real arrays (built directly and re-opened from stored metadata): 2 encodings x 2 separators x 10 node paths "
+                "(root, nested, names equal to 'c', '0', 'zarr.json') x ranks 0..5 x coordinates drawn from {0,9,10,99,100,2^32+-1,2^63,2^64-1,10^k+-1,random}; "
+                "exhaustive coordinates 0..11 for ranks 0..2; malformed key/path stream for the validators; non-trivial = distinct key request of rank>=1",
+        "nontrivial": lambda l: l.startswith("c11 key") and "idx=-" not in l and " -> val" in l,
+        "exhaustive": False,
+        "trusted_base": COMMON_TB + ["u64::to_string is tied to Nat.toDigits 10 by the correspondence only"],
+        "assumptions": ["node paths and keys are ASCII in the generated cases"],
+    },
 }
